@@ -114,6 +114,104 @@ func c30Small(s []byte, max uint64) (val uint64, ok bool, applicable bool) {
 	return v, v <= max, true
 }
 
+// c30ByteClass names the class of a non-digit byte (part of the violation sig): the neighbours of '0'..'9' in the
+// ASCII table are kept apart from the rest because range tests, nibble tests and masks go wrong exactly there.
+func c30ByteClass(c byte) string {
+	switch {
+	case c == '+':
+		return "plus"
+	case c == '-':
+		return "minus"
+	case c == ' ' || c == '\t':
+		return "space"
+	case c >= 'a' && c <= 'z' || c >= 'A' && c <= 'Z':
+		return "letter"
+	case c >= 0x3a && c <= 0x3f:
+		return "ascii-3a-3f-above-digits" // : ; < = > ?  (same high nibble as the digits)
+	case c >= 0x21 && c <= 0x2f:
+		return "ascii-21-2f-below-digits" // ! " # $ % & ' ( ) * , . /
+	case c < 0x20 || c == 0x7f:
+		return "control"
+	case c >= 0x80 && c&0x7f >= '0' && c&0x7f <= '9':
+		return "highbyte-b0-b9" // a digit with the top bit set
+	case c >= 0x80:
+		return "highbyte"
+	}
+	return "other"
+}
+
+// c30ByteContexts are the digit strings into which every byte value is inserted / substituted at every position
+// (enumeration (d)): short, at and beyond maxSafeIntDigits, MaxInt/10 (one more "digit" decides the overflow test),
+// MaxInt, an overflowing run and a long run of leading zeros.
+var c30ByteContexts = []string{
+	"", "0", "7", "10", "99", "123", "00000", "123456789", "1234567890", "123456789012345678",
+	"922337203685477580", "9223372036854775807", "92233720368547758070", "0000000000000000000000012",
+	"214748364", "2147483647", "429496729",
+}
+
+// c30HexByteContexts: hex digit runs of 0..17 digits for the all-bytes enumeration of readHexInt.
+var c30HexByteContexts = []string{
+	"", "0", "f", "1A", "7f3", "0123456", "0123456789abcd", "0123456789abcde", "7fffffffffffffff", "00000000000000001",
+}
+
+// c30EachByteEdit calls f with ctx with byte c inserted at every position 0..len(ctx) and substituted at every position
+// 0..len(ctx)-1, for every c in 0..255 (the buffer is reused). pos is the edited position.
+func c30EachByteEdit(ctx string, f func(s []byte, c byte, pos int)) int {
+	n := 0
+	ins := make([]byte, len(ctx)+1)
+	sub := make([]byte, len(ctx))
+	for p := 0; p <= len(ctx); p++ {
+		for c := 0; c < 256; c++ {
+			copy(ins, ctx[:p])
+			ins[p] = byte(c)
+			copy(ins[p+1:], ctx[p:])
+			f(ins, byte(c), p)
+			n++
+			if p < len(ctx) {
+				copy(sub, ctx)
+				sub[p] = byte(c)
+				f(sub, byte(c), p)
+				n++
+			}
+		}
+	}
+	return n
+}
+
+// c30NondigitShapeByte: "<hex of the first non-digit byte>-<first|inner|last>" (anti-vacuity key of enumeration (d)).
+func c30NondigitShapeByte(s []byte) string {
+	for i, c := range s {
+		if c >= '0' && c <= '9' {
+			continue
+		}
+		pos := "inner"
+		if i == 0 {
+			pos = "first"
+		} else if i == len(s)-1 {
+			pos = "last"
+		}
+		return strconv.FormatUint(uint64(c), 16) + "-" + pos
+	}
+	return "overflow"
+}
+
+// c30NondigitShapeIdx is the same key as an index (byte*3 + position class), -1 if s has no non-digit byte.
+func c30NondigitShapeIdx(s []byte) int {
+	for i, c := range s {
+		if c >= '0' && c <= '9' {
+			continue
+		}
+		pos := 1
+		if i == 0 {
+			pos = 0
+		} else if i == len(s)-1 {
+			pos = 2
+		}
+		return int(c)*3 + pos
+	}
+	return -1
+}
+
 func c30NondigitShape(s []byte) string {
 	for i, c := range s {
 		if c >= '0' && c <= '9' {
@@ -125,20 +223,7 @@ func c30NondigitShape(s []byte) string {
 		} else if i == len(s)-1 {
 			pos = "last"
 		}
-		cl := "other"
-		switch {
-		case c == '+':
-			cl = "plus"
-		case c == '-':
-			cl = "minus"
-		case c == ' ' || c == '\t':
-			cl = "space"
-		case c >= 'a' && c <= 'z' || c >= 'A' && c <= 'Z':
-			cl = "letter"
-		case c >= 0x80:
-			cl = "highbyte"
-		}
-		return cl + "-" + pos
+		return c30ByteClass(c) + "-" + pos
 	}
 	return "none"
 }
@@ -272,9 +357,16 @@ func (st *c30state) c30CheckHexRead(in []byte, tmp *big.Int, br *bufio.Reader, r
 	case ok && err != nil:
 		r.Violation("hexread-rejects-size-within-limit", fmt.Sprintf("readHexInt(%q) = error %v; %d hex digits (limit %d), value %d", in, err, nd, maxHexIntChars, want), art)
 	case ok && got != int(want):
-		r.Violation("hexread-wrong-value", fmt.Sprintf("readHexInt(%q) = %d, want %d", in, got, want), art)
+		sig := "hexread-wrong-value"
+		if consumed := len(in) - (br.Buffered() + rd.Len()); nd < len(in) && consumed > nd {
+			sig = "hexread-takes-" + c30ByteClass(in[nd]) + "-byte-as-hex-digit"
+		}
+		r.Violation(sig, fmt.Sprintf("readHexInt(%q) = %d, want %d", in, got, want), art)
 	case !ok && err == nil:
 		sig := "hexread-accepts-" + why
+		if why == "empty" && len(in) > 0 {
+			sig += "-" + c30ByteClass(in[0]) + "-first"
+		}
 		if why != "empty" {
 			if got < 0 {
 				sig += "-negative-result"
@@ -515,12 +607,19 @@ func TestVerif_C30(t *testing.T) {
 	digLen := vrt.Pick(r, 6, 7)
 	mixLen := vrt.Pick(r, 5, 7)
 	const win = 2000
+	fullLen := vrt.Pick(r, 2, 3)
+	pairNote := ""
+	if r.Thorough() {
+		pairNote = " and every adjacent pair of byte values inserted at every position of the same contexts"
+	}
 	r.Rule(fmt.Sprintf("ParseUint on (a) every decimal digit string of length 1..%d, (b) every string of <=%d symbols over {0,1,9,+,-,space,a}, "+
+		"(d) every byte string of length <=%d over all 256 byte values, and every byte value 0..255 inserted and substituted at every position of %d digit contexts (0..25 digits: short, around maxSafeIntDigits, MaxInt/10, MaxInt, overflowing, leading zeros)%s, "+
 		"(c) for every threshold t in {10^k, MaxInt, MaxInt/10, ceil(j*2^64/10), ceil(j*2^63/10) j=1..10, 2^64+2^63} every value in t+-%d with 0..3 leading zeros, as is and with each extra digit appended; "+
 		"oracle math/big (accept iff non-empty, all ASCII digits, value <= MaxInt; value equal), cross-validated by exact uint64 evaluation on <=18 digits; "+
 		"AppendUint/ParseUint inverse on every accepted value; writeHexInt->readHexInt/parseChunkSize on every value < 2^20 and 16^k+-64, readHexInt on structured hex strings of 1..18 digits "+
-		"(longer than maxHexIntChars or not fitting an int => must be rejected); 16-bit and 32-bit instantiations of parseUintBuf (transcription tied to the source by behavioural identity on all cases above and a source hash) "+
-		"for every accumulator value x next digit. Non-trivial: inputs whose digit run is longer than maxSafeIntDigits (the overflow test decides) within +-50 of a threshold, and rejected inputs of (b)", digLen, mixLen, win))
+		"(longer than maxHexIntChars or not fitting an int => must be rejected), on every byte string of length <=2 over all 256 byte values and on every byte value inserted/substituted at every position of %d hex contexts of 0..17 digits "+
+		"(a byte that is not a hex digit ends the number and stays unread); 16-bit and 32-bit instantiations of parseUintBuf (transcription tied to the source by behavioural identity on all cases above and a source hash) "+
+		"for every accumulator value x next digit. Non-trivial: inputs whose digit run is longer than maxSafeIntDigits (the overflow test decides) within +-50 of a threshold, rejected inputs of (b), and every (byte value, first/inner/last position) pair of a rejected input of (d)", digLen, mixLen, fullLen, len(c30ByteContexts), pairNote, win, len(c30HexByteContexts)))
 	r.Assume("math/big decimal and hex parsing is correct",
 		"the 32-bit claim is decided on c30ParseUintW, a transcription of parseUintBuf with int->int32: trusted because it behaves identically to the real function at 64 bit on the whole enumeration and the source text of the real function still has the recorded hash",
 		"hex round trip is required for sizes below 16^maxHexIntChars (the statement's platform limit); larger ints written in hex must be rejected on read")
@@ -528,6 +627,7 @@ func TestVerif_C30(t *testing.T) {
 	r.Set("maxHexIntChars", maxHexIntChars)
 	r.Set("digit_string_max_len", digLen)
 	r.Set("mixed_alphabet_max_len", mixLen)
+	r.Set("all_bytes_max_len", fullLen)
 
 	// (a) all digit strings up to digLen: shard = (length, first digit)
 	r.Par(digLen*10, func(i int) {
@@ -575,6 +675,85 @@ func TestVerif_C30(t *testing.T) {
 	})
 	r.Sample(map[string]any{"enumeration": "mixed alphabet", "input": "1 9", "ParseUint": c30show(ParseUint([]byte("1 9")))})
 	r.Sample(map[string]any{"enumeration": "mixed alphabet", "input": "+1", "ParseUint": c30show(ParseUint([]byte("+1")))})
+
+	// (d) the full byte alphabet: all short byte strings, and every byte value at every position of digit contexts
+	var fullCases, fullAccepted atomic.Int64
+	var fullSeen [768]atomic.Bool
+	fullNote := func(s []byte, ok bool) {
+		if ok {
+			fullAccepted.Add(1)
+			return
+		}
+		if k := c30NondigitShapeIdx(s); k >= 0 && !fullSeen[k].Swap(true) {
+			r.Nontrivial("byte" + c30NondigitShapeByte(s))
+		}
+	}
+	r.Par(257, func(i int) {
+		tmp := new(big.Int)
+		if i == 256 {
+			fullNote(nil, st.c30CheckParse(nil, tmp))
+			fullCases.Add(1)
+			r.Eval(1)
+			return
+		}
+		buf := make([]byte, fullLen)
+		buf[0] = byte(i)
+		n := 0
+		for l := 1; l <= fullLen; l++ {
+			tot := 1
+			for k := 1; k < l; k++ {
+				tot *= 256
+			}
+			for v := 0; v < tot; v++ {
+				x := v
+				for p := l - 1; p >= 1; p-- {
+					buf[p] = byte(x)
+					x >>= 8
+				}
+				fullNote(buf[:l], st.c30CheckParse(buf[:l], tmp))
+				n++
+			}
+		}
+		fullCases.Add(int64(n))
+		r.Eval(n)
+	})
+	r.Par(len(c30ByteContexts), func(i int) {
+		tmp := new(big.Int)
+		n := c30EachByteEdit(c30ByteContexts[i], func(s []byte, c byte, pos int) {
+			fullNote(s, st.c30CheckParse(s, tmp))
+		})
+		fullCases.Add(int64(n))
+		r.Eval(n)
+	})
+	if r.Thorough() {
+		// every adjacent pair of byte values inserted at every position of every context
+		type job struct{ ctx, pos int }
+		var jobs []job
+		for ci, c := range c30ByteContexts {
+			for p := 0; p <= len(c); p++ {
+				jobs = append(jobs, job{ci, p})
+			}
+		}
+		r.Par(len(jobs), func(i int) {
+			ctx, p := c30ByteContexts[jobs[i].ctx], jobs[i].pos
+			tmp := new(big.Int)
+			buf := make([]byte, len(ctx)+2)
+			copy(buf, ctx[:p])
+			copy(buf[p+2:], ctx[p:])
+			for c1 := 0; c1 < 256; c1++ {
+				buf[p] = byte(c1)
+				for c2 := 0; c2 < 256; c2++ {
+					buf[p+1] = byte(c2)
+					fullNote(buf, st.c30CheckParse(buf, tmp))
+				}
+			}
+			fullCases.Add(65536)
+			r.Eval(65536)
+		})
+	}
+	r.Add("parseuint_all_bytes_cases", fullCases.Load())
+	r.Add("parseuint_all_bytes_accepted_by_reference", fullAccepted.Load())
+	r.Sample(map[string]any{"enumeration": "all byte values", "input": vrt.Q([]byte("12:")), "ParseUint": c30show(ParseUint([]byte("12:")))})
 
 	// (c) threshold windows
 	ths := c30Thresholds(uint(strconv.IntSize))
@@ -723,6 +902,35 @@ func TestVerif_C30(t *testing.T) {
 			})
 			r.Eval(n)
 		})
+		// the full byte alphabet: every byte string of length <=2, every byte value at every position of hex contexts
+		var hexBytes atomic.Int64
+		r.Par(len(c30HexByteContexts)+1, func(i int) {
+			tmp := new(big.Int)
+			br, rd := bufio.NewReader(nil), bytes.NewReader(nil)
+			n := 0
+			one := func(s []byte) {
+				n++
+				if st.c30CheckHexRead(s, tmp, br, rd) {
+					hexAcc.Add(1)
+				} else {
+					hexRej.Add(1)
+				}
+			}
+			if i == len(c30HexByteContexts) {
+				one(nil)
+				for c1 := 0; c1 < 256; c1++ {
+					one([]byte{byte(c1)})
+					for c2 := 0; c2 < 256; c2++ {
+						one([]byte{byte(c1), byte(c2)})
+					}
+				}
+			} else {
+				c30EachByteEdit(c30HexByteContexts[i], func(s []byte, c byte, pos int) { one(s) })
+			}
+			hexBytes.Add(int64(n))
+			r.Eval(n)
+		})
+		r.Add("hexread_all_bytes_cases", hexBytes.Load())
 		// every run of 1..18 identical digits and every single non-zero digit followed by zeros
 		{
 			tmp := new(big.Int)
@@ -843,6 +1051,27 @@ func TestVerif_C30(t *testing.T) {
 			return true
 		})
 		r.Eval(2 * n)
+	}
+	{
+		// the full byte alphabet on the transcriptions (kept in step with enumeration (d))
+		tmp := new(big.Int)
+		max32b := big.NewInt(math.MaxInt32)
+		n := 0
+		both := func(s []byte) {
+			n += 2
+			c30CheckWidth[int16](r, "int16", s, math.MaxInt16, 16, max16, tmp)
+			c30CheckWidth[int32](r, "int32", s, math.MaxInt32, 32, max32b, tmp)
+		}
+		for c1 := 0; c1 < 256; c1++ {
+			both([]byte{byte(c1)})
+			for c2 := 0; c2 < 256; c2++ {
+				both([]byte{byte(c1), byte(c2)})
+			}
+		}
+		for _, ctx := range c30ByteContexts {
+			c30EachByteEdit(ctx, func(s []byte, c byte, pos int) { both(s) })
+		}
+		r.Eval(n)
 	}
 	r.Add("int16_accepted", acc16.Load())
 	r.Add("int16_rejected", rej16.Load())
